@@ -118,7 +118,7 @@ def r2_genoid(chk):
     ci = model.cls(INTER, 'IntermediateCodeGen')
     o, fn = ci.find_method('genOid')
     rets = [x for x in walk_no_nested(fn) if isinstance(x, ast.Return)]
-    ok = len(rets) == 1 and norm(rets[0].value).startswith("('.'.join([str(x) for x in self.genNumericOid(out)]), ")
+    ok = len(rets) == 1 and common.pmatch(rets[0].value, "('.'.join([str($x) for $x in self.genNumericOid($o)]), $p)") is not None
     chk.ob('C01.R2', 'IntermediateCodeGen.genOid/dotted-result', ok, where(ci.mod, fn),
            'result must be the dotted numeric OID of the whole list: %s' % [norm(r.value)[:80] for r in rets])
 
@@ -199,23 +199,28 @@ def r4_trap(chk, rule='C01.R4'):
                   'str(value), unconditionally; value is the NUMBER of the trap clause')
     o, f1 = model.cls(SYMTAB, 'SymtableCodeGen').find_method('genTrapType')
     st = [s for s in ir.record_stores(f1) if s.key == ('oid',)]
-    ok = len(st) == 1 and norm(st[0].value) == 'enterprise + (0, value)' and not st[0].guards
+    u1 = unpack_names(f1)
+    ok = len(st) == 1 and u1 is not None and len(u1) == 6 and norm(st[0].value) == '%s + (0, %s)' % (u1[1], u1[5]) \
+        and not st[0].guards
     chk.ob(rule, 'SymtableCodeGen.genTrapType/oid', ok, where(o.mod, f1), 'oid is %s' % [norm(s.value) for s in st])
     o2, f2 = model.cls(INTER, 'IntermediateCodeGen').find_method('genTrapType')
     st = [s for s in ir.record_stores(f2) if s.key == ('oid',)]
-    ok = len(st) == 1 and norm(st[0].value) == "enterpriseStr + '.0.' + str(value)" and not st[0].guards
-    # enterpriseStr must be the first component of the enterprise OID handler result, not modified
+    u2 = unpack_names(f2)
+    b = common.pfind([s for s in walk_no_nested(f2) if isinstance(s, ast.Assign)], '$es, $po = %s' % (u2[1] if u2 else '?'))
+    es = b['es'] if b else '?'
+    ok = len(st) == 1 and u2 is not None and len(u2) == 6 and \
+        norm(st[0].value) == "%s + '.0.' + str(%s)" % (es, u2[5]) and not st[0].guards
+    # the enterprise string must be the first component of the enterprise OID handler result, not modified
     mods = [s for s in walk_no_nested(f2) if isinstance(s, (ast.Assign, ast.AugAssign)) and any(
-        _key_is(t, 'enterpriseStr') for t in (s.targets if isinstance(s, ast.Assign) else [s.target]))]
-    un = [s for s in walk_no_nested(f2) if isinstance(s, ast.Assign) and norm(s) == 'enterpriseStr, parentOid = enterprise']
+        _key_is(t, es) for t in (s.targets if isinstance(s, ast.Assign) else [s.target]))]
+    un = [1] if b else []
     chk.ob(rule, 'IntermediateCodeGen.genTrapType/oid', ok and len(un) == 1 and not mods, where(o2.mod, f2),
            'trap OID is %s%s' % ([norm(s.value) for s in st], '; enterprise string altered: %s' % [
                norm(m) for m in mods] if mods else ''))
     for f, owner in ((f1, o), (f2, o2)):
-        first = f.body[0]
-        ok = isinstance(first, ast.Assign) and isinstance(first.targets[0], ast.Tuple) and \
-            [e.id for e in first.targets[0].elts][1] == 'enterprise' and [e.id for e in first.targets[0].elts][-1] == 'value'
-        chk.ob(rule, '%s.genTrapType/unpack' % owner.name, ok, where(owner.mod, f), norm(first)[:80])
+        un_ = unpack_names(f)
+        chk.ob(rule, '%s.genTrapType/unpack' % owner.name, un_ is not None and len(un_) == 6, where(owner.mod, f),
+               'the handler must unpack (name, enterprise, variables, description, reference, value)')
     gs = shapes(model, shipped_dialects(model)['smiV1Relaxed'])
     for p in gs.d.prods:
         if p.lhs == 'trapTypeClause':
@@ -224,6 +229,15 @@ def r4_trap(chk, rule='C01.R4'):
             second = p.rhs[t.items[2].i - 1] if hasattr(t.items[2], 'i') else None
             chk.ob(rule, 'trapTypeClause/positions', last == 'NUMBER' and second in ('objectIdentifier', 'EnterprisePart'),
                    '%s:%s' % (PARSER, p.fn.lineno), 'enterprise <- %s, value <- %s' % (second, last))
+
+
+def unpack_names(fn):
+    """names of the leading `a, b, c = data` unpack of a handler"""
+    d = fn.args.args[1].arg
+    for s in fn.body:
+        if isinstance(s, ast.Assign) and isinstance(s.targets[0], ast.Tuple) and _key_is(s.value, d):
+            return [e.id if isinstance(e, ast.Name) else None for e in s.targets[0].elts]
+    return None
 
 
 def r5_fixpoint(chk):
@@ -283,7 +297,7 @@ def r5_fixpoint(chk):
     for x in rs2:
         for t, b in ir.guards_of(x, gc):
             tests.append(norm(t))
-    ok = 'self._postponedSyms' in tests and 'sym not in self._out and sym not in self._importMap' in tests
+    ok = 'self._postponedSyms' in tests and common.pfind(tests, '$s not in self._out and $s not in self._importMap') is not None
     chk.ob('C01.R5', 'genCode/leftover-and-unknown-parent-raise', ok, where(mod, gc), 'guards: %s' % tests)
     decl = [n for n in walk_no_nested(gc) if isinstance(n, ast.For) and 'declarations' in norm(n.iter)]
     ok = bool(decl) and all(x.lineno > decl[0].end_lineno for x in rs2)
@@ -291,7 +305,9 @@ def r5_fixpoint(chk):
     # allParentsExists consults complete knowledge: _out, _importMap, base types, table kinds, rows
     o, ap = ci.find_method('allParentsExists')
     txt = norm(ap)
-    need = ['parent in self._out', 'parent in self._importMap', 'parent in self.baseTypes', 'parent in self._rows']
+    b = common.pmatch(txt, '$p in self._out', full=False)
+    pv = b['p'] if b else '?'
+    need = ['%s in self._out' % pv, '%s in self._importMap' % pv, '%s in self.baseTypes' % pv, '%s in self._rows' % pv]
     chk.ob('C01.R5', 'allParentsExists', all(n in txt for n in need), where(mod, ap), '')
 
 
@@ -354,8 +370,10 @@ def r7_plumbing(chk, rule='C01.R7'):
             cr.status_of(cr.subscript_store(s)[2], r.status_consts) == 'compiled']
     if comp:
         kws = dict((k.arg, norm(k.value)) for k in cr.subscript_store(comp[0])[2].keywords)
+        b = common.pmatch(kws.get('oids', ''), '$m.oids')
+        mi_var = b['m'] if b else 'mibInfo'
         for a in ('oid', 'oids', 'identity', 'revision', 'enterprise', 'compliance'):
-            chk.ob(rule, 'compile/status.%s' % a, kws.get(a) == 'mibInfo.%s' % a, where(r.mod, comp[0]),
+            chk.ob(rule, 'compile/status.%s' % a, kws.get(a) == '%s.%s' % (mi_var, a), where(r.mod, comp[0]),
                    '%s=%s' % (a, kws.get(a)))
         # mibInfo is the one returned by the code generator for this module (third tuple slot of builtMibs)
     o, fn = model.cls('pysmi/codegen/jsondoc.py', 'JsonCodeGen').find_method('genIndex')
